@@ -22,8 +22,12 @@ Import ListNotations.
 """
 
 
+TRANSLATORS = [('py_nsi_terms', 'NsiTerms')]
+
+
 def theorems(ctx):
     ctx.modelled += MODELLED
+    ctx.generate(TRANSLATORS)
     ctx.theorems()
     if ctx.tier == "thorough":
         ctx.coqchk()
